@@ -380,7 +380,37 @@ func (s *scriptedServer) Subscribe(stream pb.GNMI_SubscribeServer) error {
 		}
 		switch o.Kind {
 		case "await":
-			h.wait(func() bool { return h.stop || (o.Obs < len(h.obs) && h.obs[o.Obs].reached(o.Event, o.N)) }, maxAwait)
+			max := maxAwait
+			if o.MaxMs > 0 {
+				max = time.Duration(o.MaxMs) * time.Millisecond
+			}
+			h.wait(func() bool { return h.stop || (o.Obs < len(h.obs) && h.obs[o.Obs].reached(o.Event, o.N)) }, max)
+		case "quiet":
+			// the device has nothing to say for a while - REAL time, its stream stays open: whatever gives an idle
+			// stream up (here, in the collector, between the collector and its subscribers) gets its chance. The
+			// script counts as moving meanwhile (hang rule). A stream that ends nevertheless is picked up like any
+			// other: the target reports its state on the next one and goes on with the script.
+			for end := time.Now().Add(time.Duration(o.N) * time.Millisecond); ; {
+				rem := time.Until(end)
+				if rem <= 0 {
+					break
+				}
+				if rem > time.Second {
+					rem = time.Second
+				}
+				select {
+				case <-stream.Context().Done():
+					return status.Error(codes.Canceled, "stream cancelled")
+				case <-time.After(rem):
+				}
+				h.mu.Lock()
+				h.progress = time.Now()
+				over := h.over
+				h.mu.Unlock()
+				if over {
+					break
+				}
+			}
 		case "wait":
 			time.Sleep(time.Duration(o.N) * time.Millisecond)
 		case "break":
@@ -495,7 +525,7 @@ func freePort() (int, error) {
 	return l.Addr().(*net.TCPAddr).Port, nil
 }
 
-func startCollector(e *env, dir, configFile string) (*collectorProc, error) {
+func startCollector(e *env, dir, configFile string, noMeta bool) (*collectorProc, error) {
 	for attempt := 0; attempt < 3; attempt++ {
 		port, err := freePort()
 		if err != nil {
@@ -506,8 +536,11 @@ func startCollector(e *env, dir, configFile string) (*collectorProc, error) {
 		if err != nil {
 			return nil, err
 		}
-		cmd := exec.Command(e.collector, "-config_file", configFile, "-cert_file", e.cert, "-key_file", e.key, "-port", fmt.Sprint(port),
-			"-dial_timeout", "10s", "-logtostderr", "-metadata_update_period", "200ms")
+		args := []string{"-config_file", configFile, "-cert_file", e.cert, "-key_file", e.key, "-port", fmt.Sprint(port), "-dial_timeout", "10s", "-logtostderr"}
+		if !noMeta {
+			args = append(args, "-metadata_update_period", "200ms")
+		}
+		cmd := exec.Command(e.collector, args...)
 		cmd.Stdout, cmd.Stderr = f, f
 		if err := cmd.Start(); err != nil {
 			f.Close()
